@@ -454,7 +454,11 @@ class Runner:
         unit = r.unit
         out = r._replay_head
         tests = r._replay_tests
-        if tests and getattr(r, "_skip_native", False):
+        if tests and unit.extra.get("no_native"):
+            out.append("")
+            out.append("counterexample(s) from the verifier (NOT run natively: this unit replaces a real callee by its contract stub, so a native run would exercise different code):")
+            out += tests
+        elif tests and getattr(r, "_skip_native", False):
             out.append("")
             out.append("counterexample(s) from the verifier (native run skipped: more than VERIF_MAX_REPLAYS violations in this run):")
             out += tests
